@@ -11,6 +11,8 @@ SPEC = dict(
           "value within +-70000 of each power of ten, power of two, 0 and the limits (edge32), random values "
           "with uniformly drawn bit width (rand32), thorough: all 2^32 values of int32_t and uint32_t (full32, -O2 build with canary buffers) and every 8th block of 65536 values again in the ASan build with exact-size heap buffers (full32asan). "
           "64-bit: the same anchors +-radius (edge64) and random (rand64). distinct_nontrivial = number of "
+          "mt: the functions have no state - 8 threads convert random values of all types at the same time (string, buffer, "
+          "grouped forms), every result is compared with the reference inside the thread. "
           "distinct (type, value) pairs, counted by hash (random/edge modes) or by construction (exhaustive "
           "modes); every value is non-trivial (each exercises the length search and the digit switch)."),
     assumptions=["the reference digit loop / odometer in harness/int2str.cpp (spot-checked against snprintf at start-up)",
@@ -23,6 +25,8 @@ SPEC = dict(
         dict(name="edge64", flavour="asan", cases={"quick": 300 * 4001, "thorough": 300 * 40001},
              args={"radius": {"quick": 2000, "thorough": 20000}}, eval_stat="values", timeout=1800),
         dict(name="rand64", flavour="asan", cases={"quick": 1500000, "thorough": 50000000}, eval_stat="values", timeout=3600),
+        dict(name="mt", flavour="asan", cases={"quick": 64, "thorough": 2000}, workers=4, eval_stat="values",
+             args={"threads": 8, "values": 4000}, require_stats=["mt.concurrent_conversions"], timeout=3600),
         dict(name="full32", flavour="fast", cases=65536, tiers=["thorough"], exhaustive=True, eval_stat="values",
              args={"heap": 0, "groupmask": 3}, timeout=7200),
         dict(name="full32asan", hmode="full32", flavour="asan", cases=8192, tiers=["thorough"],
